@@ -17,6 +17,16 @@ from fractions import Fraction
 from harness import common
 from harness.common import Check, coq_Q, coq_list, coq_nat
 
+REGISTRY = dict(
+    text=("Proof (unbounded): the backward GAE loop assembled from the statements regenerated from buffers.py equals the discounted-sum definition for every horizon, "
+          "cuts at episode boundaries, bootstraps from last_values, returns = advantage + value, environments are independent, and the minibatches of any pass over any "
+          "permutation partition the rollout for every batch size; flatten index law. Tie: fragment translator + correspondence on RolloutBuffer/DictRolloutBuffer."),
+    note=("Trusted: Coq 8.16.1 kernel (vm_compute, no native_compute), translate/py2coq.py + specs/gae.py, harness/c05.py, Python/numpy/torch. "
+          "Not verified: float32 rounding (exact dyadic stream + rel 1e-4 stream), numpy broadcasting/reshape (correspondence only). "
+          "All C05 theorems are closed under the global context (no axioms)."),
+    technique="machine-checked proof in Coq (induction over the step list / index arithmetic) + regenerated-fragment interface lemmas + differential correspondence",
+)
+
 HEADER = """From Coq Require Import List QArith ZArith.
 From SB3V Require Import Model.Gae Model.Minibatch.
 Import ListNotations.
